@@ -187,7 +187,7 @@ fn build(f: &mut Field, sender: usize, content: &Content, rng: &mut Rng) -> Opti
     Some((bytes, named))
 }
 
-fn family1(prop: &str, i: u64, rng: &mut Rng, out: &mut Outcome, dir: &std::path::Path) {
+pub fn family1(prop: &str, i: u64, rng: &mut Rng, out: &mut Outcome, dir: &std::path::Path) {
     let mut f = field(rng, dir, &format!("c05-{i}"), i % 7 == 0);
     out.evaluations += 1;
     let g = f.g;
@@ -292,7 +292,7 @@ fn family1(prop: &str, i: u64, rng: &mut Rng, out: &mut Outcome, dir: &std::path
 }
 
 /// Family 2: an honest admin's API operation with proposals of others planted in its queue.
-fn family2(prop: &str, i: u64, rng: &mut Rng, out: &mut Outcome, dir: &std::path::Path) {
+pub fn family2(prop: &str, i: u64, rng: &mut Rng, out: &mut Outcome, dir: &std::path::Path) {
     let mut f = field(rng, dir, &format!("c05b-{i}"), false);
     out.evaluations += 1;
     let g = f.g;
